@@ -92,9 +92,39 @@ def generate(ctx, rng):
         if rng.random() < 0.3:
             c["stage_faults"] = {str(rng.randrange(3)): [rng.choice(FAULTS + [None]) for _ in range(rng.randint(1, 3))]}
         yield ("rnd", j), c
+    # device ids whose udpid (in the byte order the device is registered under) starts with one or two zero bytes
+    zero_ids = _leading_zero_ids()
+    for j, (did, endian, nz) in enumerate(zero_ids):
+        yield ("e2e-zero", j), {"kind": "e2e", "id": did, "endian": endian, "token": rng.randbytes(64), "key": rng.randbytes(32), "cred": _cred(rng),
+                                "mode": "broadcast" if j % 2 else "single", "others": 0}
+    # several V3 devices connected one after the other while the cloud has a transient fault during the first login
+    for j in range(40 if quick else 1500):
+        nd = rng.randint(2, 3)
+        yield ("e2e-connect", j), {"kind": "e2e-connect", "ids": [rng.getrandbits(48) | 1 for _ in range(nd)],
+                                   "endians": [rng.choice(["little", "big"]) for _ in range(nd)], "cred": _cred(rng),
+                                   "faults": [rng.choice(FAULTS)] * rng.choice([1, 1, 2, 3]), "cseed": rng.getrandbits(32),
+                                   "fault_stage": rng.choice([0, 1])}
     for j in range(60 if quick else 2500):
         yield ("e2e", j), {"kind": "e2e", "id": rng.getrandbits(48) | 1, "endian": rng.choice(["little", "big"]), "token": rng.randbytes(64),
                            "key": rng.randbytes(32), "cred": _cred(rng), "mode": rng.choice(["broadcast", "single"]), "others": rng.randint(0, 2)}
+
+
+def _leading_zero_ids():
+    """(device id, byte order, number of leading zero bytes of its udpid) found by search with the independent udpid."""
+    out = []
+    for endian in ("little", "big"):
+        found = {1: 0, 2: 0}
+        did = 0x100000
+        while (found[1] < 4 or found[2] < 1) and did < 0x100000 + 400000:
+            did += 1
+            u = cloudsrv.udpid(did, endian)
+            if u.startswith("0000") and found[2] < 1:
+                found[2] += 1
+                out.append((did, endian, 2))
+            elif u.startswith("00") and not u.startswith("0000") and found[1] < 4:
+                found[1] += 1
+                out.append((did, endian, 1))
+    return out
 
 
 def _scripts(L):
@@ -111,6 +141,8 @@ def _tok_case(rng, pos, size, region=None):
 def run_case(ctx, case):
     if case["kind"] == "e2e":
         return _e2e(ctx, case)
+    if case["kind"] == "e2e-connect":
+        return _e2e_connect(ctx, case)
     r = random.Random(case["lseed"])
     u = case["udpid"]
     match = {"udpId": u, "token": "%0128x" % r.getrandbits(512), "key": "%064x" % r.getrandbits(256)}
@@ -287,3 +319,76 @@ def _e2e(ctx, case):
         ctx.violation("e2e-no-handshake", "device never saw a handshake with its registered token", case)
     ctx.count(k, kind="bad" if bad else "e2e-authenticated", sample={"endian": case["endian"], "mode": case["mode"], "getToken_requests":
               sum(1 for q in model.requests if q["path"].endswith("getToken"))})
+
+
+def _e2e_connect(ctx, case):
+    """Discover without auto-connect, then Discover.connect() each V3 device in turn; the cloud fails transiently during the
+    first login.  Devices connected after the fault has cleared must be authenticated; every request must be well formed."""
+    r = random.Random(case["cseed"])
+    acct, pw = case["cred"]
+    model = cloudsrv.CloudModel({acct: pw})
+    model.invent_unknown = True
+    net = H.new_net()
+    devs = []
+    for i, (did, endian) in enumerate(zip(case["ids"], case["endians"])):
+        ip = f"10.19.1.{10 + i}"
+        token, key = r.randbytes(64), r.randbytes(32)
+        model.registry[cloudsrv.udpid(did, endian)] = (token.hex(), key.hex())
+        devs.append((ip, did, token, key, SimDevice(net, host=ip, port=6444, version=3, token=token, key=key, device_id=did)))
+        SimHost(net, ip, 6445, [(0.05 + 0.01 * i, None, D.build_reply(3, did, D.build_payload(ip, 6444, b"2" * 32, b"net_ac_%04X" % i)))])
+    stage_paths = ["/v1/user/login/id/get", "/v1/user/login"]
+    pending = list(case["faults"])
+    orig_handle = model.handle
+
+    def handle(request):
+        if pending and request.url.path == stage_paths[case["fault_stage"]]:
+            model.faults = [pending.pop(0)]
+        else:
+            model.faults = []
+        return orig_handle(request)
+
+    model.handle = handle
+    outcomes = []
+
+    async def go(loop):
+        found = await Discover.discover(auto_connect=False, account=acct, password=pw, get_async_client=model.client_factory())
+        by_ip = {d.ip: d for d in found}
+        for ip, did, token, key, sim in devs:
+            d = by_ip.get(ip)
+            if d is None:
+                outcomes.append((ip, "not-discovered", None, 0))
+                continue
+            n0 = len(pending)
+            try:
+                ok = await Discover.connect(d)
+                outcomes.append((ip, "connected" if ok else "connect-false", d, n0 - len(pending)))
+            except CloudError as e:
+                outcomes.append((ip, "CloudError", d, n0 - len(pending)))
+            except Exception as e:  # noqa: BLE001
+                outcomes.append((ip, "exc:" + type(e).__name__, d, n0 - len(pending)))
+
+    k = ("e2e-connect", tuple(case["ids"]), tuple(case["endians"]), repr(case["faults"]), case["fault_stage"])
+    try:
+        H.run_virtual(go, net)
+    except Exception as e:  # noqa: BLE001
+        ctx.count(k, kind="e2e-connect-raised")
+        ctx.violation(f"e2e-raises/{type(e).__name__}", f"{type(e).__name__}: {e}", case)
+        return
+    bad = False
+    for v in model.violations[:3]:
+        bad = True
+        ctx.violation(f"wire-contract/{v.split(':')[-1].strip().split(' ')[0]}", f"model server: {v}", case, {"outcomes": [o[:2] for o in outcomes]})
+    # a connect during which the cloud injected no fault at all must authenticate the device with its registered credentials
+    for i, (ip, what, d, consumed) in enumerate(outcomes):
+        if what.startswith("exc:") or what == "not-discovered":
+            bad = True
+            ctx.violation(f"e2e-connect/{what}", f"device {ip}: {what}", case)
+            continue
+        if consumed == 0:
+            ip_, did, token, key, sim = devs[i]
+            ctx.bump("connects-with-healthy-cloud")
+            if what != "connected" or (d.token, d.key) != (token.hex(), key.hex()) or not d.online:
+                bad = True
+                ctx.violation("e2e-not-authenticated-after-cloud-recovered", f"device {ip} connected while the cloud was healthy (after an earlier fault): {what}, "
+                              f"token set={d.token is not None}, online={d.online}", case, {"outcomes": [o[:2] + (o[3],) for o in outcomes]})
+    ctx.count(k, kind="bad" if bad else "e2e-authenticated", sample={"faults": case["faults"], "outcomes": [o[:2] for o in outcomes]})
